@@ -72,8 +72,9 @@ def check(prop, tier, seed):
     rnd = random.Random(seed)
     rnd.shuffle(rows)
     table = rows if tier == 'thorough' else rows[:1200]
-    for r in table:
+    for i, r in enumerate(table):
         r['class'] = 'tlc_descriptor'
+        r['opts']['disable_comments'] = ('', '', 'first', '', 'all')[i % 5]      # comments switched off for one / every rpc
     committed = []
     for path, pkg, svc, meths in COMMITTED:
         committed.append({'class': 'committed_file', 'file': path, 'package': pkg, 'service': {'name': svc, 'proto': svc},
@@ -90,6 +91,7 @@ def check(prop, tier, seed):
         m['service']['name'] = m['service']['proto']      # the manual builder has one name for both
         for i, me in enumerate(m['methods']):
             me['codec'] = 'crate::CodecB' if i % 2 else 'crate::CodecA'
+        m['opts']['disable_comments'] = ('first', '', 'all')[len(manual) % 3]
         manual.append(m)
     for label, stims in (('descriptors', table), ('manual', manual), ('committed', committed)):
         ev, path = simple.run_lab('codegen', stims, tag, label)
